@@ -101,12 +101,14 @@ type World struct {
 	closeCalled   atomic.Bool
 	held          atomic.Bool // a goroutine is parked by the harness
 	heldN         atomic.Int32
+	inBody        atomic.Bool // an Enqueue/Dequeue body has touched the channels but not yet logged its event
 	inCb          atomic.Int32
 
 	park    atomic.Pointer[parkReq]
 	park2   atomic.Pointer[parkReq] // a second, simultaneous park (other goroutine, other point)
 	cbBlock atomic.Pointer[parkReq] // park inside the callback (name = "cb")
 
+	reenter *lib.Rand // callbacks of keys < 4 call Enqueue/Dequeue themselves (nil = never); guarded by yieldMu
 	yield   *lib.Rand // random perturbation at hooks (nil = none)
 	yieldMu sync.Mutex
 	useGate bool
@@ -141,6 +143,22 @@ func (w *World) callback(r *item) {
 	w.setLoopHook("cb")
 	w.maybePark("cb", []any{r})
 	w.perturb()
+	if r.key < 4 {
+		w.yieldMu.Lock()
+		x := -1
+		if w.reenter != nil {
+			x = w.reenter.Intn(6)
+		}
+		w.yieldMu.Unlock()
+		switch x {
+		case 0, 1: // follow-up item, due 1 ms from now
+			w.p.Enqueue(&item{key: r.key + 4, at: w.clk.Now().Add(time.Millisecond), id: -1})
+		case 2: // follow-up item that is already due
+			w.p.Enqueue(&item{key: r.key + 4, at: w.clk.Now(), id: -1})
+		case 3:
+			w.p.Dequeue((r.key + 1) % 4)
+		}
+	}
 	w.add(Ev{Kind: "ret", ID: r.id})
 	w.setLoopHook("cbret")
 	w.inCb.Add(-1)
@@ -181,6 +199,14 @@ func (w *World) maybePark(name string, args []any) {
 	if !req.used.CompareAndSwap(false, true) {
 		return
 	}
+	if !strings.HasPrefix(name, "process.") {
+		// A lock-free step of the loop can see a reset/token that an Enqueue/Dequeue body has just sent
+		// before that body has logged its event (it does so at the end of its critical section):
+		// let the body finish, so that the park is logged after the event that caused it.
+		for w.inBody.Load() {
+			runtime.Gosched()
+		}
+	}
 	e := Ev{Kind: "park", P: name, None: true}
 	if len(args) > 0 {
 		if it, ok := args[0].(*item); ok && it != nil {
@@ -206,10 +232,12 @@ func (w *World) hook(name string, args ...any) {
 	w.mu.Unlock()
 	switch name {
 	case "queue.process.tokenTaken":
+		w.inBody.Store(true)
 		w.lastProc = "spawn"
 		w.loopsStarted.Add(1)
 		w.setLoopHook("spawned")
 	case "queue.process.resetSent":
+		w.inBody.Store(true)
 		w.lastProc = "reset"
 		w.resetPending.Store(true)
 	case "queue.enqueue.locked":
@@ -218,9 +246,11 @@ func (w *World) hook(name string, args ...any) {
 		w.nextID++
 		w.add(Ev{Kind: "enq", Key: r.key, At: ns(w.base, r.at), ID: r.id, First: args[1].(bool), Out: w.lastProc})
 		w.lastProc = "none"
+		w.inBody.Store(false)
 	case "queue.dequeue.locked":
 		w.add(Ev{Kind: "deq", Key: args[0].(int), First: args[1].(bool), Out: w.lastProc})
 		w.lastProc = "none"
+		w.inBody.Store(false)
 	case "queue.close.afterCAS":
 		w.closeCalled.Store(true)
 		w.add(Ev{Kind: "closecall"})
